@@ -10,7 +10,7 @@ from . import c01, c09, c11
 
 ID = "C20"
 NEEDS_SHIM = True
-BUDGET = {"quick": 2400, "thorough": 80000}
+BUDGET = {"quick": 2400, "thorough": 320000}
 MIN_EVALS = {"quick": 2000, "thorough": 60000}
 ASSUMPTIONS = ["transform refusals are observed on the pure-Python numba stand-in /verif/vf/shim/numba"]
 RULE = (
